@@ -70,8 +70,8 @@ CLAIM = dict(
          "prefix i with base^(i+1) <= value < base^(i+2) for i < 7 and value >= base^8 for the last prefix "
          "(sizeUnit_spec). int/float: over the except clauses READ from do_int/do_float and the MEASURED table of "
          "exceptions raised by int(x[,base]) / float(x) / int(float(x)) on 292 (value class, base) rows, every raised class "
-         "is caught and the default returned, except for the explicitly listed OverflowError rows (convert_total_except_known, "
-         "by decide; the unrestricted statement ConvertTotal is false today: known finding F7). Tie: every string of length "
+         "is caught, so a value or the default is returned and nothing escapes (convert_total = ConvertTotal at full strength, "
+         "escapingRows_nil, convert_default_on_failure, by decide on every run; finding F7 is repaired in /repo 15bb75e). Tie: every string of length "
          "<= 4 (quick) / <= 5 (thorough) over {a, b, ' ', '\\n', '-', '<'} (indent: {a, ' ', '\\n', '\\r', U+2028}) x argument "
          "grids (truncate 168 combinations incl. rejected ones, indent 16, center 12, trim 6, replace 80) on the real "
          "filter functions and through rendered templates; random long Unicode strings; filesizeformat on boundary ints, "
@@ -81,8 +81,8 @@ CLAIM = dict(
          "definitions and documented contracts only (no Lean theorem).",
     note="Trusted: Lean kernel; hand model Model/FiltStr.lean (tied by correspondence only); translator and the measured "
          "exception table (CPython facts for sampled value classes); textwrap's contract (hypothesis), Unicode case mapping, urllib quote, float "
-         "rounding/formatting, markupsafe, printf formatting are assumed (correspondence-only filters). Known finding F7: "
-         "float('inf')|int, Decimal('Infinity')|int and (10**400)|float, huge Fraction|float raise OverflowError.",
+         "rounding/formatting, markupsafe, printf formatting are assumed (correspondence-only filters). Finding F7 (OverflowError from "
+         "float('inf')|int, Decimal('Infinity')|int, (10**400)|float, huge Fraction|float) is fixed in /repo 15bb75e; the samples stay in the table.",
     design_ref="§5 C23",
 )
 
@@ -444,6 +444,9 @@ def run_filesize(ctx, res, impl, stats):
 # int / float
 # --------------------------------------------------------------------------------------------------------------
 
+FORMER_F7 = [("int", "float-inf", "0"), ("int", "float-neginf", "0"), ("int", "decimal-inf", "0"), ("float", "hugeint", "0.0"),
+             ("float", "hugeint-neg", "0.0"), ("float", "hugeint-2pow1024", "0.0"), ("float", "int-below-2pow1024", "0.0"),
+             ("float", "fraction-huge", "0.0")]
 INT_SENT = -987654321
 FLOAT_SENT = -98765.4321
 
@@ -497,6 +500,27 @@ def run_convert(ctx, res, impl, stats):
                             {"filter": filt, "sample": name, "base": base, "route": route}, no_input=True)
         stats["distinct"].add(("conv", name, base))
     stats["dist"]["convert_outcomes"] = outcomes
+    # counterexample finder of convert_total (driver): rows on which the decision model lets an exception out.  Every row was
+    # replayed on the real code above (a reproducing one is a concrete violation `C23:<filter>:<class>:<sample>`); a predicted
+    # escape that does not reproduce was reported as model-drift.
+    escapes = canon(core.driver_batch([[Atom("fs"), Atom("conv-escapes")]])[0][1])
+    stats["dist"]["model_predicted_escapes"] = [f"{f}:{n}:base{b}:{c}" for f, n, b, c in escapes]
+    if escapes and not ctx.proof_broken:
+        res.notes.append("convert_total proved although the finder reports escapes?")
+    # the samples of the repaired finding F7, with the filters' own defaults, end to end
+    for filt, name, want in FORMER_F7:
+        kind, mk = samples[name]
+        try:
+            got = impl.env.from_string("{{ x|%s }}" % filt).render(x=mk())
+        except Exception as e:  # noqa
+            got = "raises:" + type(e).__name__
+        stats["evaluations"] += 1
+        if got.startswith("raises:"):
+            res.violate(f"C23:{filt}:{got[7:]}:{name}", f"{{{{ x|{filt} }}}} with x = {_short(mk())} raises {got[7:]} instead of rendering the default {want!r}",
+                        {"filter": filt, "sample": name, "base": 10, "route": "render"})
+        elif got != want:
+            res.violate(f"C23:{filt}:default:{name}", f"{{{{ x|{filt} }}}} with x = {_short(mk())} renders {got!r}, the documented default is {want!r}",
+                        {"filter": filt, "sample": name, "base": 10, "route": "render"})
     # random numeric spellings against the documented definition (reference below catches everything: the filter is total)
     rng = ctx.rng("numstr")
     parts = ["", " ", "+", "-", "0", "1", "7", "42", "007", ".", ".5", "5.", "e", "E", "e3", "e-2", "e400", "_", "x", "0x", "0b1", "inf", "nan",
@@ -838,12 +862,6 @@ def run(ctx, res):
     run_filesize(ctx, res, impl, stats)
     run_convert(ctx, res, impl, stats)
     nref = run_reference(ctx, res, jinja2, impl, stats)
-    # Findings/F7.lean proves, over the present Gen table, that the full-strength ConvertTotal is false and that every
-    # listed known row escapes; if it stops building the finding no longer reproduces in the model (not a violation)
-    f7_ok, _log = core.lake_build(["JinjaV.Findings.F7"]) if not ctx.proof_broken else (False, "")
-    f7 = ("F7 reproduces in the model (Findings/F7.lean builds: ConvertTotal is false over the present table)" if f7_ok
-          else "Findings/F7.lean does not build: finding F7 no longer reproduces in the model (or the proofs are broken)")
-    res.notes.append(f7)
     res.coverage.update({
         "evaluations": stats["evaluations"],
         "distinct_nontrivial": len(stats["distinct"]),
@@ -865,10 +883,8 @@ def run(ctx, res):
         "out_of_model": stats["oom"],
         "distribution": stats["dist"],
         "reference_checks": nref,
-        "finding_witness": f7,
         "partial": "wordwrap is proved relative to textwrap's contract only; title/capitalize/upper/lower, urlencode, round, striptags, format and non-ASCII wordcount are "
-                   "correspondence-only (Python stdlib behaviour assumed); convert_total holds for the sampled value classes "
-                   "except the listed OverflowError rows (known finding F7)",
+                   "correspondence-only (Python stdlib behaviour assumed); convert_total is about the sampled value classes",
     })
 
 
